@@ -2,6 +2,7 @@
 package c15
 
 import (
+	"bytes"
 	"fmt"
 	"go/ast"
 	"go/parser"
@@ -463,6 +464,29 @@ type fileCase struct {
 	Package   []string `json:"package"`
 	Canonical string   `json:"canonical"`
 	Body      bool     `json:"body"`
+	// Late: settings made after the File has been rendered once (HeaderComment / PackageComment /
+	// CanonicalPath); the File must then render like a File that had them from the start
+	Late []recipe.FileOp `json:"late,omitempty"`
+}
+
+// final is the case with the late settings made up front.
+func (c fileCase) final() fileCase {
+	d := c
+	d.Order = nil
+	d.Headers = append([]string{}, c.Headers...)
+	d.Package = append([]string{}, c.Package...)
+	d.Late = nil
+	for _, op := range c.Late {
+		switch op.Op {
+		case "HeaderComment":
+			d.Headers = append(d.Headers, string(op.Args[0]))
+		case "PackageComment":
+			d.Package = append(d.Package, string(op.Args[0]))
+		case "CanonicalPath":
+			d.Canonical = string(op.Args[0])
+		}
+	}
+	return d
 }
 
 func (c fileCase) file(noFormat bool) *recipe.File {
@@ -513,6 +537,32 @@ func checkFile(c fileCase) error { return checkFileX(c, true) }
 func probeFile(c fileCase) error { return checkFileX(c, false) }
 
 func checkFileX(c fileCase, exclude bool) error {
+	if len(c.Late) > 0 {
+		for _, nf := range []bool{true, false} {
+			var got, want []byte
+			var gerr, werr error
+			if perr := hx.Safe(func() error {
+				f := recipe.BuildFile(c.file(nf))
+				_ = f.Render(&bytes.Buffer{})
+				for i := range c.Late {
+					recipe.ApplyFileOp(f, &c.Late[i])
+				}
+				b := &bytes.Buffer{}
+				gerr = f.Render(b)
+				got = b.Bytes()
+				b2 := &bytes.Buffer{}
+				werr = recipe.BuildFile(c.final().file(nf)).Render(b2)
+				want = b2.Bytes()
+				return nil
+			}); perr != nil {
+				return perr
+			}
+			if (gerr == nil) != (werr == nil) || !bytes.Equal(got, want) {
+				return fmt.Errorf("a File rendered once, then given %s, renders (NoFormat=%v)\n%s\n(err %v); a File that had these settings from the start renders\n%s\n(err %v)", recipe.JSON(c.Late), nf, got, gerr, want, werr)
+			}
+		}
+		return checkFileX(c.final(), exclude)
+	}
 	raw, err := rt.Render(&recipe.Builder{}, c.file(true))
 	if err != nil {
 		return fmt.Errorf("NoFormat render failed: %v", err)
@@ -579,7 +629,18 @@ func (c fileCase) structure(out []byte, label string) error {
 	if err != nil {
 		return fmt.Errorf("%s output does not parse: %v", label, err)
 	}
-	if (f.Doc != nil) != (len(c.Package) > 0) {
+	wantDoc := len(c.Package) > 0
+	if label != "raw" {
+		// gofmt reformats doc comments: empty comment lines at either end of the package doc are
+		// dropped, a doc made only of them disappears (the unformatted output keeps every line)
+		wantDoc = false
+		for _, t := range c.Package {
+			if strings.TrimSpace(t) != "" {
+				wantDoc = true
+			}
+		}
+	}
+	if (f.Doc != nil) != wantDoc {
 		return fmt.Errorf("package doc present=%v but %d package comments were given\n%s", f.Doc != nil, len(c.Package), out)
 	}
 	nHeader := len(commentTokens(c.Headers))
@@ -598,6 +659,9 @@ func (c fileCase) structure(out []byte, label string) error {
 		}
 	}
 	if f.Doc != nil {
+		if label == "raw" && len(f.Doc.List) != nPkg {
+			return fmt.Errorf("the package doc of the unformatted output holds %d comments, the package comments given make %d\n%s", len(f.Doc.List), nPkg, out)
+		}
 		if len(f.Doc.List) != nPkg {
 			// gofmt may re-flow doc text, never the number of /* */ blocks; compare conservatively
 			blocks := 0
@@ -667,6 +731,9 @@ func (c fileCase) structure(out []byte, label string) error {
 		pos := 0
 		for i := range c.Package {
 			m := fmt.Sprintf("PKG%dX", i)
+			if !strings.Contains(c.Package[i], m) {
+				continue // a comment without text carries no marker; the counts above cover it
+			}
 			k := strings.Index(doc[pos:], m)
 			if k < 0 {
 				return fmt.Errorf("package comment %d is missing from the package doc (or out of order)\n%s", i, out)
@@ -696,6 +763,10 @@ func (c fileCase) structure(out []byte, label string) error {
 }
 
 func genFileComment(t *rapid.T, marker string) string {
+	if rapid.IntRange(0, 7).Draw(t, "emptytext") == 0 {
+		// an empty line inside a licence header or a package doc: a comment without text
+		return rapid.SampledFrom([]string{"", "", " ", "\t"}).Draw(t, "blank")
+	}
 	switch rapid.IntRange(0, 4).Draw(t, "style") {
 	case 0, 1:
 		return sanitize(marker + " " + genText(t, false))
@@ -867,10 +938,23 @@ func TestC15(t *testing.T) {
 		default:
 			c.Canonical = rapid.String().Draw(rt2, "canonany")
 		}
+		if rapid.IntRange(0, 2).Draw(rt2, "late") == 0 {
+			for i := rapid.IntRange(1, 3).Draw(rt2, "nlate"); i > 0; i-- {
+				switch rapid.IntRange(0, 3).Draw(rt2, "latekind") {
+				case 0:
+					c.Late = append(c.Late, recipe.FileOp{Op: "HeaderComment", Args: []recipe.Text{recipe.Text(genFileComment(rt2, fmt.Sprintf("HDR%dX", len(c.final().Headers))))}})
+				case 1:
+					c.Late = append(c.Late, recipe.FileOp{Op: "PackageComment", Args: []recipe.Text{recipe.Text(genFileComment(rt2, fmt.Sprintf("PKG%dX", len(c.final().Package))))}})
+				default:
+					c.Late = append(c.Late, recipe.FileOp{Op: "CanonicalPath", Args: []recipe.Text{recipe.Text(rapid.SampledFrom([]string{"", "example.com/late", "a b", "x\\y"}).Draw(rt2, "latecanon"))}})
+				}
+			}
+			r.Class("settings_after_first_render")
+		}
 		if len(c.Headers) > 0 || len(c.Package) > 0 || c.Canonical != "" {
 			r.NonTrivial(fmt.Sprintf("%+v", c))
 		}
-		if c.inKF2() {
+		if c.final().inKF2() {
 			r.ExcludedKnown() // raw-output checks still run; the formatted-structure part is not judged
 		}
 		r.Class(fmt.Sprintf("headers_%d_pkg_%d", min(len(c.Headers), 2), min(len(c.Package), 2)))
